@@ -56,6 +56,11 @@ def generate(tier, rng):
                 "ops/v*", "ops/w*", "ops/*", "ops/&*", "ops/|*", "ops/>*", "ops/<*", "ops/y*", "ops/~*", "ops/*x", "ops/*k", "ops/*&", "ops/[*", "ops/nomatch*"]:
         for p in ("prog", "./argv"):
             cases.append(Case("plan1", [genv, hx(p + " " + pat), "c13g", hx(p), hx(pat)], {"gen": "glob", "v": pat, "form": "g", "dq": False, "pos": p, "kind": "argv"}))
+    # data that travels through an alias: the value holds a double-quoted expansion, the variable holds operator characters
+    for v in ["a>b", "<f", "|", "&", "2>&1", ">x", "a b", ";", "*"]:
+        aenv = gens.env_field(vars={"V": v}, exported={"HOME": "/h"}, aliases={"show": 'prog "$V"', "sh2": 'prog "${V}" \'$V\' z'}, cmds={"o0": v + "\n"})
+        for line in ("show", "show tail", "sh2", "x | show", "show ; sh2"):
+            cases.append(Case("plan", [aenv, hx(line)], {"gen": "alias", "v": v, "form": "alias", "dq": True, "pos": line, "kind": "shape"}))
     r = rng.fork("c13")
     n = 2000 if tier == "quick" else 30000
     for _ in range(n):
